@@ -204,8 +204,9 @@ def okNext : Option Nat → Bool
   | none => true
   | some r => 0 < r && r < 0xFFFFFF
 
+/-- field ranges of one entry (everything except the question whether the value is itself a store) -/
 def Entry.ok (nGuids : Nat) (e : Entry) : Bool :=
-  e.size < 65536 && e.content.take 4 != sig &&
+  e.size < 65536 &&
   match e with
   | .var f g n _ x nx => okFlags f && okGuid nGuids g && okName n && okExt f false x && okNext nx
   | .data f _ x nx => okFlags f && okExt f true x && okNext nx
@@ -215,13 +216,21 @@ def Entry.index? : Entry → Option Nat
   | .var _ (.index i) _ _ _ _ => some i
   | _ => none
 
-/-- basic well-formedness: what parse ∘ assemble = id needs -/
-def wf (s : NvStore) : Bool :=
+/-- the content of the entry is plain data: it does not begin with the NVAR signature, so fiano
+    does not try to read it as a nested store -/
+def Entry.plain (e : Entry) : Bool := e.content.take 4 != sig
+
+/-- well-formedness of ONE level: field ranges, names, extended headers, GUID table — whatever the
+    values contain (the recursive grammar of `SpecNested.lean` uses it at every nesting level) -/
+def wf1 (s : NvStore) : Bool :=
   (s.pol == 0xFF || s.pol == 0) &&
   s.entries.all (Entry.ok s.guids.length) &&
   s.guids.all (·.length == 16) && s.guids.length ≤ 255 &&
   -- the table holds exactly the GUIDs some variable refers to (the highest index is used)
   (s.guids.length == 0 || s.entries.any (fun e => e.index? == some (s.guids.length - 1)))
+
+/-- basic well-formedness of a store without nested stores: what parse ∘ assemble = id needs -/
+def wf (s : NvStore) : Bool := wf1 s && s.entries.all Entry.plain
 
 def WF (s : NvStore) : Prop := wf s = true
 
